@@ -71,6 +71,14 @@ impl BuzHash {
     /// Should be used for processing input until hash is valid.
     pub fn init(&mut self, in_val: u8) {
         if !self.window_full {
+            // Track repeated input here too, or input() compares its first bytes
+            // against a stale state and may skip bytes the window has not seen yet.
+            if in_val == self.last_input {
+                self.repeated_input += 1;
+            } else {
+                self.repeated_input = 0;
+                self.last_input = in_val;
+            }
             let in_val = self.buzhash_table[in_val as usize];
             // Initialize sequence until window is full
             let shift = self.window - (self.index + 1);
